@@ -197,16 +197,24 @@ theorem agree_fock_from (cs : List Cmd) (s : Fock D) (hs : FockInv s) (r' : Rows
     ∃ s' : Fock D, Fock.runCircuit cs s = .ok s' ∧ FockInv s' ∧ s'.abs = r' :=
   Fock.runCircuit_refines cs s hs r' h
 
-/-- **explicit `state(modes=[…])`** on the Fock and on the (repaired) Gaussian back end: the result is the list of the
-requested positions of the full state, in the requested order — so every returned mode is a live mode, labelled with its
-own index and carrying its own data -/
-theorem state_modes_exact_fock (s : Fock D) (hs : FockInv s) (modes : List Nat) (out : List (Nat × D))
-    (h : s.stateModes modes = .ok out) : getAll (Rows.state 0 s.abs) modes = .ok out :=
-  Fock.stateModes_exact s hs modes out h
+/-- **explicit `state(modes=[…])`, all three back ends, one statement**: `modes` are SUBSYSTEM INDICES.  For every
+non-empty list of distinct live indices in any order the call succeeds and returns `Rows.pairs` — the requested
+indices, each paired with the data of that very subsystem — in the requested order on the Fock and Gaussian back ends
+and in ascending index order on the bosonic one; a list naming a deleted or unknown index is rejected (and `state` has
+no effect on the simulator: it is a function of it) -/
+theorem state_modes_exact :
+    StateModesSpec (Fock.abs (D := D)) FockInv Fock.stateModes id ∧
+    StateModesSpec (PS.abs (D := D)) PSInv PS.stateModesG id ∧
+    StateModesSpec (PS.abs (D := D)) PSInv PS.stateModesB PS.sortAsc :=
+  stateModes_spec_all
 
-theorem state_modes_exact_gaussian (s : PS D) (hs : PSInv s) (modes : List Nat) (out : List (Nat × D))
-    (h : s.stateModesG modes = .ok out) : getAll (Rows.state 0 s.abs) modes = .ok out :=
-  PS.stateModesG_exact s hs modes out h
+/-- … where entry `k` of `Rows.pairs a is` is labelled `is[k]` and carries the data of subsystem `is[k]` -/
+theorem state_modes_entries (a : Rows D) (is : List Nat) (hl : is.all a.liveAt = true) (k i : Nat) (hk : is[k]? = some i) :
+    ∃ d, a[i]? = some (some d) ∧ (Rows.pairs a is)[k]? = some (i, d) :=
+  Rows.pairs_get a is hl k i hk
+
+/-- the bosonic order is a rearrangement of the request -/
+theorem state_modes_bosonic_order (modes : List Nat) (x : Nat) : x ∈ PS.sortAsc modes ↔ x ∈ modes := mem_sortAsc modes x
 
 /-- dead or unknown indices are rejected by the Fock back end (`_remap_modes`) -/
 theorem reject_dead_gate_fock (s : Fock D) (hs : FockInv s) (k : Int) (ms : List Nat) (m : Nat) (hm : m ∈ ms)
@@ -226,6 +234,14 @@ would get `init_num_subsystems` contiguous modes) -/
 theorem first_program_with_holes_refused (o : BackendOps D B) (s : Sys B) (hp : s.prev = none)
     (hh : s.prog.initRegRefs.all (·.active) = false) : step o s .endProg = .error .runtime := by
   simp [step, engineRun, engineStart, hp, hh]
+
+/-- **a successor with another creation / deletion history is refused**, even when its ACTIVE subsystems coincide with
+those the previous segment ended with (an independently built program, a fragment that creates and deletes a mode run
+twice): the whole RegRef table is compared, the run raises `RuntimeError` and nothing is executed -/
+theorem successor_mismatch_refused (o : BackendOps D B) (s : Sys B) (pr : List RegRef) (hp : s.prev = some pr)
+    (hne : s.prog.initRegRefs ≠ pr) : step o s .endProg = .error .runtime := by
+  have : (s.prog.initRegRefs == pr) = false := by simpa using hne
+  simp [step, engineRun, engineStart, hp, Prog.canFollow, this]
 
 /-- **hand-over between segments**: `Program(prev)` can always follow `prev` … -/
 theorem can_follow_child (p : Prog) : p.child.canFollow p.regRefs = true := canFollow_child p
@@ -336,17 +352,33 @@ example : (match Sys.init (bosOps Int) 1 with
     | .error _ => ([], [], .ok []))
     = ([1, 2], [1, 2], .ok [(1, 0), (2, 3)]) := by decide +kernel
 
-/-- `state_modes_exact_*`: after `Del q[1]` of 3, positions `[1, 0]` are the modes `q[2], q[0]` with their own data -/
-example : ∃ s : PS Int, PS.runCircuit [⟨.gate 1, [0]⟩, ⟨.gate 3, [2]⟩, ⟨.delete, [1]⟩] (PS.begin 3) = .ok s ∧
-    s.stateModesG [1, 0] = .ok [(2, 3), (0, 1)] ∧ Rows.state 0 s.abs = [(0, 1), (2, 3)] := ⟨_, rfl, by decide, by decide⟩
+/-- `state_modes_exact`: 4 modes carrying 1,2,3,4; `Del q[1]`; the cyclic request `[3, 0, 2]` returns subsystems 3, 0, 2
+with their own data on Fock and Gaussian and `0, 2, 3` on bosonic; the deleted index 1 and the unknown index 7 are refused -/
+def cs4 : List Cmd := [⟨.gate 1, [0]⟩, ⟨.gate 2, [1]⟩, ⟨.gate 3, [2]⟩, ⟨.gate 4, [3]⟩, ⟨.delete, [1]⟩]
 
-example : ∃ s : Fock Int, Fock.runCircuit [⟨.gate 1, [0]⟩, ⟨.gate 3, [2]⟩, ⟨.delete, [1]⟩] (Fock.begin 3) = .ok s ∧
-    s.stateModes [1, 0] = .ok [(2, 3), (0, 1)] ∧ Rows.state 0 s.abs = [(0, 1), (2, 3)] := ⟨_, rfl, by decide, by decide⟩
+example : ∃ s : PS Int, PS.runCircuit cs4 (PS.begin 4) = .ok s ∧
+    s.stateModesG [3, 0, 2] = .ok [(3, 4), (0, 1), (2, 3)] ∧ s.stateModesB [3, 0, 2] = .ok [(0, 1), (2, 3), (3, 4)] ∧
+    Rows.pairs s.abs [3, 0, 2] = [(3, 4), (0, 1), (2, 3)] ∧ [3, 0, 2].all (Rows.liveAt s.abs) = true ∧
+    s.stateModesG [0, 1] = .error .value ∧ s.stateModesB [7] = .error .value ∧ Rows.liveAt s.abs 1 = false :=
+  ⟨_, rfl, by decide, by decide, by decide, by decide, by decide, by decide, by decide⟩
+
+example : ∃ s : Fock Int, Fock.runCircuit cs4 (Fock.begin 4) = .ok s ∧
+    s.stateModes [3, 0, 2] = .ok [(3, 4), (0, 1), (2, 3)] ∧ s.stateModes [0, 1] = .error .value ∧
+    s.stateModes [7] = .error .index ∧ s.stateModes [2, 2] = .error .value :=
+  ⟨_, rfl, by decide, by decide, by decide, by decide⟩
 
 /-- `all_gate_is_uses`: accepted on two modes (two commands appended), rejected as a whole when one item is deleted -/
 example : ∃ p : Prog, (Prog.fresh 3 >>= fun p => p.delOp [.own 1]) = .ok p ∧
     (match p.allOp [.own 2, .int 0] 1 with | .ok q => q.circuit.length | .error _ => 0) = p.circuit.length + 2 ∧
     (match p.allOp [.own 2, .int 1] 1 with | .ok _ => none | .error e => some e) = some .regRef :=
   ⟨_, rfl, by decide, by decide⟩
+
+/-- `successor_mismatch_refused`: after `Program(2)` with `Del q[1]`, an independent `Program(1)` has the same active
+subsystem `{0}` but is refused; so is the program that deleted a mode as its own successor -/
+example : ∃ p q : Prog, (Prog.fresh 2 >>= fun p => p.delOp [.own 1]) = .ok p ∧ Prog.fresh 1 = .ok q ∧
+    q.register = p.register ∧ q.initRegRefs ≠ p.regRefs ∧ p.initRegRefs ≠ p.regRefs ∧
+    (match step (gaussOps Int) ⟨q, some p.regRefs, PS.begin 2⟩ .endProg with
+      | .error e => some e
+      | .ok _ => none) = some .runtime := ⟨_, _, rfl, rfl, by decide, by decide, by decide, by decide⟩
 
 end SFV.C08
